@@ -48,3 +48,8 @@ BUILT['C13'] = {
     'level': 'Runtime monitoring: templates of literal segments and references (document paths, $env:NAME, repeat variable), whole-value and key $env, evaluated by the real library in a child process spawned with the case\'s environment; results must equal the harness\'s plain concatenation, $env results must be strings with exactly the variable\'s bytes, missing references must fail. Holds for the executions produced only.',
     'note': 'Trusted: generators and expected-string computation. Environment values containing $ are excluded from the generated workload: three recorded known findings (known_findings.json) are re-run on every invocation instead.',
 }
+BUILT['C14'] = {
+    'technique': 'independent-oracle monitor (hashlib/base64/json/PyYAML core schema/tomllib + reference list transforms), shared-codec and inverse ($decode) monitors (in-process worker)',
+    'level': 'Runtime monitoring: every transform and stacks of up to 3 with valid and invalid arguments over generated values, hosted as map keys, $value and list entries; results must equal independent implementations folded left to right, format texts must decode (independent parsers) to the value and be byte-identical to bkl\'s own output of that format, flags must equal [tolist:=, prefix:--], malformed arguments/wrong input kinds must fail, and $decode of the produced text must give the value back as seen through json, yaml and toml output. Holds for the executions produced only.',
+    'note': 'Trusted: Python stdlib codecs, PyYAML (core-schema loader), tomllib, the reference list-transform functions in harness/bv/props/c14.py. Text form of floats/non-scalars in text transforms and toml of non-maps are not judged.',
+}
